@@ -409,9 +409,23 @@ fn main() {
             _ => (0, 0),
         };
         // head.created may come from the source (openTypeHeadCreated); head.modified is always the build time
-        let coq = format!("(Z.eqb (head_timestamp (Some {}) 12345%Z) {})", coq_z(epoch), coq_z(modified));
+        // name records as the font has them: (platform, encoding, language, name id); the model sorts them from two other
+        // arrival orders and must reproduce the font's order (name_order_ok)
+        let name_keys: Vec<String> = match sfnt::table(first, b"name") {
+            Some(t) if t.len() >= 6 => {
+                let count = sfnt::be16(t, 2).unwrap_or(0) as usize;
+                (0..count)
+                    .filter_map(|i| {
+                        let o = 6 + 12 * i;
+                        Some(format!("({},{},{},{})", sfnt::be16(t, o)?, sfnt::be16(t, o + 2)?, sfnt::be16(t, o + 4)?, sfnt::be16(t, o + 6)?))
+                    })
+                    .collect()
+            }
+            _ => Vec::new(),
+        };
+        let coq = format!("(andb (Z.eqb (head_timestamp (Some {}) 12345%Z) {}) (name_order_ok [{}]%N))", coq_z(epoch), coq_z(modified), name_keys.join(";"));
         emit_case(id, if name.starts_with("generated") { "generated" } else { "corpus" }, coq, None, true, name.clone(),
-            json!({"source": name, "builds": outs.len(), "bytes": first.len(), "identical": differing.is_empty(), "head_created": created}));
+            json!({"source": name, "builds": outs.len(), "bytes": first.len(), "identical": differing.is_empty(), "head_created": created, "name_records": name_keys.len()}));
         id += 1;
     }
     let vm = varmodel_stream(&mut rng, arg_val(&args, "--varmodel", 80) as usize);
